@@ -455,6 +455,9 @@ func collect(b *harness.B, fam string, idx int, blocks int, each func(c *chainge
 	c := chaingen.NewChain(net, rng)
 	var kept []sample
 	c.OnAccepted = func(cs consensus.State, orig types.Block, bs consensus.V1BlockSupplement, kinds []string) {
+		if len(kinds) >= 3 {
+			b.Sample(chaingen.DescribeBlock(cs, orig, kinds))
+		}
 		s := sample{cs: cs, b: orig, bs: bs, valid: true, kinds: kinds}
 		each(c, s)
 		// an invalid sibling: the last v2 transaction (or v1) duplicated -> double spend / duplicate
